@@ -31,6 +31,18 @@ mod gossip;
 mod live;
 mod state;
 
+/// Verification hooks: access to the (otherwise private) live actor and its coordination state.
+#[cfg(feature = "verif-hooks")]
+pub mod verif {
+    pub use super::{
+        live::{
+            verif::{set_dial_log, take_dials, Dial},
+            LiveActor, ToLiveActor,
+        },
+        state::VerifPeerSnapshot,
+    };
+}
+
 /// Capacity of the channel for the [`ToLiveActor`] messages.
 const ACTOR_CHANNEL_CAP: usize = 64;
 /// Capacity for the channels for [`Engine::subscribe`].
